@@ -42,6 +42,8 @@ STD = {1: {1}, 5: {3}, 6: {4}, 7: {3}, 8: {2}, 9: {1}, 14: {4}, 15: {3, 5}, 16: 
 MOLECULES = [
     "C", "CC", "C=C", "C#C", "CC=C", "C=CC=C", "C=C=C", "C=C=C=C", "O=C=O", "C=C=O", "CC#N", "N#CC#N", "C#CC#C", "CO", "C=O", "CC(=O)C", "CC(=O)O", "CC(=O)N", "NC(=O)N", "OC(=O)O",
     "c1ccccc1", "Cc1ccccc1", "c1ccc2ccccc2c1", "c1ccncc1", "c1ccnnc1", "c1cncnc1", "c1cnccn1", "c1cc[nH]c1", "c1ccoc1", "c1ccsc1", "c1c[nH]cn1", "c1cscn1", "c1cocn1", "c1cn[nH]c1", "c1ccc2[nH]ccc2c1", "c1ccc2ncccc2c1", "Oc1ccccc1", "Nc1ccccc1", "O=Cc1ccccc1", "Clc1ccc(Br)cc1",
+    # low-coordinate hypervalent centres: the standard valence is not ruled out by the neighbour count alone
+    "CP(=O)=O", "OP(=O)=O", "CN=P(C)=NC", "C=P(C)=C", "C=P(C)=NC", "O=S(=O)=O", "C=S(=O)=O", "CN=S(=O)=O", "N#S(F)(F)F", "C=P(=O)C", "O=P(Cl)(Cl)Cl", "CC=P(C)(C)C", "COP(=O)=O", "CS(=O)(=O)C=C", "O=S(=O)(C=C)C=C", "CP(=O)(C=C)C#C",
     "CS(C)(=O)=O", "CS(=O)(=O)N", "OS(=O)(=O)O", "CSC", "CSSC", "CS", "C=S", "S=C=S", "CP(C)C", "CP(C)(C)=O", "OP(O)(O)=O", "COP(=O)(OC)OC", "P#C", "CN", "CNC", "CN(C)C", "C=N", "CN=C", "N=N", "CN=NC",
     "C1CC1", "C1CCC1", "C1CCCCC1", "C1=CCCCC1", "C1=CC=CCC1", "C1=CCC=CC1", "O=C1CCCCC1", "O=C1C=CC(=O)C=C1", "C1=CC=C1", "C1CC=CC1", "FC(F)(F)F", "ClC(Cl)Cl", "BrCCBr", "ICI", "FC=CF", "ClC#CCl", "OCCO", "OCC(O)CO", "NCC(=O)O", "CC(N)C(=O)O",
     "c1ccsn1", "c1ncsn1", "c1nncs1", "c1nnco1", "c1ccc2scnc2c1", "c1ccc2sccc2c1", "c1ccc2occc2c1", "Cc1ncsc1C", "Nc1nccs1", "c1csc(n1)c1ccccc1", "c1cc[pH]c1", "c1ccpcc1", "CSc1ccccc1", "CS(=O)(=O)c1ccccc1", "c1ccc2c(c1)Sc1ccccc1N2", "O=S(=O)(c1ccccc1)c1ccccc1", "c1cnsn1", "S1C=CC=C1", "CC1=CSC=N1", "N#Cc1cccs1",
